@@ -27,6 +27,7 @@ def run(ctx):
     ctx.guard(r1_keys)
     ctx.guard(r2_default)
     ctx.guard(r3_random)
+    ctx.guard(r4_levels)
 
 
 def _dict_keys(d):
@@ -361,3 +362,11 @@ def r3_random(ctx):
     else:
         ctx.bad("C13.R3", t, t.node, "Tensor.fromRandom does not forward the seed",
                 text_="Tensor.fromRandom seed")
+
+
+def r4_levels(ctx):
+    n = 0
+    for mname in ("uncompress", "_fillempty", "dict2fiber", "_calcShape"):
+        n += pat.check_unit_recursion(ctx, "C13.R2", ctx.method("Fiber", mname),
+                                      "level-by-level conversion")
+    ctx.floor("C13.R2", n, 4, "recursion steps of the converters")
